@@ -8,14 +8,18 @@ LEVEL_TEXT = ("ExtCmd.tla states the formula per executed hook (ArgCount: one ar
               "concatenated with every referenced variable replaced verbatim; Env: every passed pair present exactly; ExitStatus: "
               "status N # 0 => OnExit called with an error naming N) and enumerates command templates (arguments of literal / $VAR / "
               "${VAR} pieces, unquoted, double- or single-quoted) x 10 value profiles (space, quotes, $OTHER, newline, empty, "
-              "non-ASCII, backslash, glob, leading dash) x exit statuses {0,1,2,3,127,255} x restart; the real externalcmd.Cmd "
+              "non-ASCII, backslash, glob, leading dash) x exit statuses {0,1,2,3,127,255} x restart x ambient environment of the server "
+              "process (clean / the passed names with other values / names differing only in case / unrelated names); the real externalcmd.Cmd "
               "executes every case with the test binary itself as the command (it dumps argv and environment), and TLC evaluates the "
               "formula on every recorded execution (TraceExtCmd.tla)")
 LEVEL_NOTE = ("bounded: 12 piece shapes; per value profile ONE command carrying all 156 arguments of <= 2 pieces at once (thorough: all "
               "1884 of <= 3 pieces), plus every single piece alone, 24 pairs of one-piece arguments and the exit-status cases with "
-              "rotating profiles (thorough: all 144 pairs, every profile), 3 variables; argument content is left open (counted) for references inside single "
+              "rotating profiles (thorough: all 144 pairs with two profiles each, single pieces and exit cases with every profile), 3 variables; argument content is left open (counted) for references inside single "
               "quotes and for a bare $NAME directly followed by name characters after quote removal; unix only; restart=true is "
-              "closed right after the first OnExit (no second run); signals / killed commands are not covered")
+              "closed right after the first OnExit (no second run); signals / killed commands are not covered; ambient environments: quick "
+              "runs every all-arguments command clean and with colliding names, the other two ambients and the small families in rotation "
+              "(thorough: single pieces in all four, exit cases clean and colliding, the 144 pairs in rotation); whether variables the server does not pass are inherited "
+              "is left open (layer 1 says they are; DRIFT)")
 TECHNIQUE = "TLC-enumerated templates replayed by really executing the hook + TLC trace validation of what the command saw"
 
 PKG = "./internal/externalcmd/"
@@ -40,7 +44,7 @@ def run(ctx):
         r = vf.mc(ctx, "ExtCmd", cfg, workers=min(vf.NCPU, 8), timeout=900, java_opts=["-Xmx6g"])
         for c in r.tagged("CASE"):
             c["text"] = " ".join(c["args"])          # the command line: the arguments' texts separated by one blank
-            key = (c["text"], c["prof"], c["status"], c["restart"])
+            key = (c["text"], c["prof"], c["status"], c["restart"], c["amb"])
             if key in seen:
                 continue
             seen.add(key)
@@ -49,7 +53,7 @@ def run(ctx):
     if len(cases) < 60:
         raise vf.Infra("generator produced only %d cases" % len(cases))
     ctx.set("exhaustive", True)
-    cf = vf.write_ndjson(ctx.path("cases.ndjson"), [{k: c[k] for k in ("id", "text", "env", "status", "restart")} for c in cases])
+    cf = vf.write_ndjson(ctx.path("cases.ndjson"), [{k: c[k] for k in ("id", "text", "env", "status", "restart", "amb", "ambient", "ambnames")} for c in cases])
     of = ctx.path("obs.ndjson")
     vf.gotest_ok(ctx, PKG, "^TestVerif_C21_Replay$", cases=cf, out=of, params={"WORKERS": 8}, timeout=1500)
     obs = {o["id"]: o for o in vf.read_ndjson(of)}
@@ -59,7 +63,7 @@ def run(ctx):
         if o is None or o.get("timeout"):
             raise vf.Infra("harness produced no observation for case %d (%s)" % (c["id"], c["text"]))
         recs.append({"tmpl": c["tmpl"], "env": c["env"], "status": c["status"], "restart": c["restart"], "ran": o["ran"],
-                     "argv": o["argv"], "envseen": o["envseen"], "l1": c["l1"],
+                     "argv": o["argv"], "envseen": o["envseen"], "l1": c["l1"], "ambient": c["ambient"], "ambseen": o["ambseen"],
                      "onexit": [{"nonnil": x["nonnil"], "nums": x["nums"]} for x in o["onexit"]]})
 
     bad, drift = [], 0
@@ -96,9 +100,17 @@ def run(ctx):
             rec = {"monitor": mon, "arg": shape(c["tmpl"][i - 1]), "classes": "+".join(classes)}
             key = (mon, rec["arg"], rec["classes"])
         elif mon == "Env":
-            e = c["env"][b["badenv"][0] - 1]
-            rec = {"monitor": mon, "class": e["class"]}
-            key = (mon, e["class"])
+            i = b["badenv"][0]
+            e = c["env"][i - 1]
+            if i in b["inheritedwins"]:
+                seenx = "the value the server process inherited under the same name"
+            elif not o["envseen"][i - 1]:
+                seenx = "variable missing"
+            else:
+                seenx = "another value"
+            cls = "(any value)" if i in b["inheritedwins"] else e["class"]      # an override does not depend on the value
+            rec = {"monitor": mon, "class": cls, "ambient": c["amb"], "observed": seenx}
+            key = (mon, cls, c["amb"], seenx)
         else:
             rec = {"monitor": mon, "args": " ".join(shape(a) for a in c["tmpl"]),
                    "classes": "+".join(sorted({e["class"] for e in c["env"] for a in c["tmpl"] for p in a if p["t"] == "var" and p["name"] == e["name"]}))}
@@ -125,7 +137,10 @@ def run(ctx):
                 detail = ("argument %d `%s`: received %r, expected %r" % (i, c["args"][i - 1], s(o["argv"][i - 1]), s(c["exp"][i - 1])))
             elif key[0] == "Env":
                 i = b["badenv"][0]
-                detail = "environment holds %s=%r" % (c["env"][i - 1]["name"], [s(v) for v in o["envseen"][i - 1]])
+                detail = ("the server passes %s=%r, the server process itself inherited %s; the hook's environment holds %s=%r (%s)"
+                          % (c["env"][i - 1]["name"], s(c["env"][i - 1]["v"]),
+                             ", ".join("%s=%r" % (a["name"], s(a["v"])) for a in c["ambient"]) or "nothing of that name",
+                             c["env"][i - 1]["name"], [s(v) for v in o["envseen"][i - 1]], g["rec"]["observed"]))
             else:
                 detail = "the command %s %d arguments for %d template arguments: %s" % (
                     "received" if o["ran"] else "did not run;", len(o["argv"]), len(c["args"]), [s(a) for a in o["argv"]][:12])
@@ -142,6 +157,8 @@ def run(ctx):
     ctx.set("nonzero_status_cases", sum(1 for c in cases if c["status"] != 0))
     ctx.set("executions_failing", len({c["id"] for c, _, _ in bad}))
     ctx.set("failing_by_group", {" / ".join(str(x) for x in k): g["n"] for k, g in groups.items()})
+    ctx.set("executions_by_ambient", {a: sum(1 for c in cases if c["amb"] == a) for a in sorted({c["amb"] for c in cases})})
+    ctx.set("passed_variables_judged_in_environment", sum(len(c["env"]) for c in cases))
     ctx.set("drift_events", drift)
     if drift:
         ctx.note("%d executions differ from layer 1 (split, then os.Expand; exit code reported, or the selected deviation) — DRIFT, not a verdict" % drift)
